@@ -46,7 +46,12 @@ ForeignEv(e) ==
   ELSE IF ~e.relocked THEN "C06.relock"
   ELSE "ok"
 GnuEv(e) == IF e.raised \/ ~e.fingerprint_ok \/ ~e.export_same THEN "C06.foreign-form" ELSE IF ~e.sign_refused THEN "C06.refuse-locked" ELSE "ok"
-Judge(e) == CASE e.k = "recover" -> RecoverEv(e) [] e.k = "foreign-secret" -> ForeignEv(e) [] e.k = "gnu-dummy" -> GnuEv(e) [] OTHER -> "harness.unknown-event"
+\* mixed protection states (KeyProtect.tla per component: the primary unprotected, subkeys locked): an operation that needs a locked
+\* component refuses; protecting the key does not destroy a secret it cannot read
+MixedEv(e) == IF e.op \in {"sign", "decrypt"} /\ e.outcome # "refused" THEN "C06.refuse-locked"
+              ELSE IF e.op = "protect" /\ e.outcome = "secret-lost" THEN "C06.recover"
+              ELSE "ok"
+Judge(e) == CASE e.k = "mixed" -> MixedEv(e) [] e.k = "recover" -> RecoverEv(e) [] e.k = "foreign-secret" -> ForeignEv(e) [] e.k = "gnu-dummy" -> GnuEv(e) [] OTHER -> "harness.unknown-event"
 Init == i = 1
 Next == /\ i <= Len(Events) + 1
         /\ IF i = Len(Events) + 1 THEN PrintT(<<"DONE", Len(Events)>>)
